@@ -38,6 +38,9 @@ func (r *readOnlyFile) Stat() (hackpadfs.FileInfo, error) {
 }
 
 func (r *readOnlyFile) Truncate(size int64) error {
+	if r.file.closed {
+		return r.file.closedErr("truncate")
+	}
 	// a read-only handle must not change the contents. os.File fails with EINVAL too
 	return &hackpadfs.PathError{Op: "truncate", Path: r.file.path, Err: hackpadfs.ErrInvalid}
 }
@@ -55,6 +58,9 @@ type writeOnlyFile struct {
 }
 
 func (w *writeOnlyFile) Read(p []byte) (n int, err error) {
+	if w.file.closed {
+		return 0, w.file.closedErr("read")
+	}
 	// Read is required by hackpadfs.File
 	return 0, &hackpadfs.PathError{Op: "read", Path: w.file.path, Err: hackpadfs.ErrNotImplemented}
 }
